@@ -85,6 +85,7 @@ func refEnc(d *Desc, v *Val, q quirks) ([]byte, []site, flags, error) {
 }
 
 func (st *encState) enc(out []byte, d *Desc, v *Val) ([]byte, error) {
+	d = d.res()
 	switch d.K {
 	case KU8, KU16, KU32, KU64, KU24:
 		w := intWidth(d.K)
@@ -237,6 +238,7 @@ func refDec(d *Desc, in []byte, q quirks) (Val, int, flags, error) {
 // dec decodes one d from base[off:]. base is the buffer the value lives in: the whole input at the top,
 // the content of the enclosing vector for vector elements (only the D1 model cares about the difference).
 func (st *decState) dec(d *Desc, base []byte, off int) (Val, int, error) {
+	d = d.res()
 	rest := base[off:]
 	switch d.K {
 	case KU8, KU16, KU24, KU32, KU64:
